@@ -10,6 +10,9 @@ import (
 
 var props = map[string]func(*check.Ctx) int{
 	"C01": check.C01,
+	"C03": check.C03,
+	"C04": check.C04,
+	"C05": check.C05,
 }
 
 func dispatch(cmd string, args []string) bool {
